@@ -11,7 +11,7 @@ from ..core import rule
 from ..engine import cfg as cfgmod, flow
 from ..engine import pattern as P
 from ..engine.facts import dotted, const, src, walk_func, enclosing_stmt, ancestors
-from .common import calls, stmt_nodes, exc_successors, norm_successors, contains, is_subclass, param_default, pn, access_paths, guards_of, return_leaves, arms, branch_paths, resolve
+from .common import calls, stmt_nodes, exc_successors, norm_successors, contains, is_subclass, param_default, pn, access_paths, guards_of, return_leaves, arms, branch_paths, resolve, resolve_deep
 from .common import _fold_not as fold_not
 
 
@@ -226,7 +226,7 @@ def lru(ctx):
     ok = False
     form = src(t)
     if isinstance(t, ast.Compare) and len(t.ops) == 1 and isinstance(t.ops[0], (ast.Gt, ast.GtE)) and src(t.left) == "len(self)":
-        rhs = src(t.comparators[0]).replace(" ", "")
+        rhs = src(resolve_deep(mg, t.comparators[0], 2)).replace(" ", "")
         ok = rhs in ("self.capacity+self.capacity*self.threshold", "self.capacity*(1+self.threshold)", "self.capacity*(1.0+self.threshold)", "self.capacity+self.threshold*self.capacity", "(1+self.threshold)*self.capacity")
         if not ok and rhs in ("self.capacity",):
             ok = True  # stricter bound
